@@ -232,6 +232,139 @@ theorem distance_equator {el : Ell} (lon1 lon2 : ℝ) (hd : |lon1 - lon2| < 180)
     rw [hlam2, abs_mul, abs_of_pos (by norm_num : (0:ℝ) < 2)]
     ring
 
+/-- The result depends on the longitudes only through their difference modulo a whole turn: adding 360° to either
+    longitude changes nothing (value or exception).  (Pins the unit of any "short way round" wrap: a wrap by 360
+    applied to the radian value would break this.) -/
+theorem distance_longitude_periodic (el : Ell) (lon1 lat1 lon2 lat2 : ℝ) :
+    distance el (lon1 + 360) lat1 lon2 lat2 = distance el lon1 lat1 lon2 lat2 ∧
+    distance el lon1 lat1 (lon2 + 360) lat2 = distance el lon1 lat1 lon2 lat2 := by
+  have h1 : (pradians (lon1 + 360) - pradians lon2) / 2 = (pradians lon1 - pradians lon2) / 2 + π := by
+    unfold pradians; ring
+  have h2 : (pradians lon1 - pradians (lon2 + 360)) / 2 = (pradians lon1 - pradians lon2) / 2 - π := by
+    unfold pradians; ring
+  constructor
+  · rw [distance_eq_andoyer, distance_eq_andoyer, h1, Real.sin_add_pi, Real.cos_add_pi, neg_sq, neg_sq]
+  · rw [distance_eq_andoyer, distance_eq_andoyer, h2, Real.sin_sub_pi, Real.cos_sub_pi, neg_sq, neg_sq]
+
+/-- Haversine structure of the two auxiliary quantities of `Earth.distance`: with `F = (φ₁+φ₂)/2`, `G = (φ₁−φ₂)/2`,
+    `L = (λ₁−λ₂)/2`, `s = sin²G cos²L + cos²F sin²L` and `c = cos²G cos²L + sin²F sin²L` satisfy `s + c = 1` for all
+    inputs, so `0 ≤ s ≤ 1`, `c = 0` exactly for antipodal points, and `ω = atan sqrt(s/c) = asin sqrt(s)` is half the
+    spherical distance (haversine formula). -/
+theorem haversine_identity (F G L : ℝ) :
+    (Real.sin G ^ 2 * Real.cos L ^ 2 + Real.cos F ^ 2 * Real.sin L ^ 2)
+      + (Real.cos G ^ 2 * Real.cos L ^ 2 + Real.sin F ^ 2 * Real.sin L ^ 2) = 1 ∧
+    (0 < Real.cos G ^ 2 * Real.cos L ^ 2 + Real.sin F ^ 2 * Real.sin L ^ 2 →
+      Real.arctan (Real.sqrt ((Real.sin G ^ 2 * Real.cos L ^ 2 + Real.cos F ^ 2 * Real.sin L ^ 2)
+          / (Real.cos G ^ 2 * Real.cos L ^ 2 + Real.sin F ^ 2 * Real.sin L ^ 2)))
+        = Real.arcsin (Real.sqrt (Real.sin G ^ 2 * Real.cos L ^ 2 + Real.cos F ^ 2 * Real.sin L ^ 2))) := by
+  have h := s_add_c F G L
+  refine ⟨h, fun hc => ?_⟩
+  have hs0 : 0 ≤ Real.sin G ^ 2 * Real.cos L ^ 2 + Real.cos F ^ 2 * Real.sin L ^ 2 := by positivity
+  have hc' : Real.cos G ^ 2 * Real.cos L ^ 2 + Real.sin F ^ 2 * Real.sin L ^ 2
+      = 1 - (Real.sin G ^ 2 * Real.cos L ^ 2 + Real.cos F ^ 2 * Real.sin L ^ 2) := by linarith
+  rw [hc']
+  exact arctan_sqrt_ratio hs0 (by linarith)
+
+/-- `Earth.distance` IS Andoyer's formula, for every ellipsoid and every pair of points that is neither coincident
+    (`s = 0`) nor antipodal (`c = 0`): `dist = 2 ω a (1 + f (H₁ sin²F cos²G − H₂ cos²F sin²G))`, `ω = atan sqrt(s/c)`,
+    `R = sqrt(s c)/ω`, `H₁ = (3R−1)/(2c)`, `H₂ = (3R+1)/(2s)`, and the error estimate is `round(dist f², 0)` — with NO
+    other case distinction: in particular no threshold on `s` (two points 1 m apart are not "coincident") and no
+    special branch near the antipode. -/
+theorem distance_is_andoyer (el : Ell) (lon1 lat1 lon2 lat2 : ℝ) :
+    let F := (pradians lat1 + pradians lat2) / 2
+    let G := (pradians lat1 - pradians lat2) / 2
+    let L := (pradians lon1 - pradians lon2) / 2
+    let s := Real.sin G ^ 2 * Real.cos L ^ 2 + Real.cos F ^ 2 * Real.sin L ^ 2
+    let c := Real.cos G ^ 2 * Real.cos L ^ 2 + Real.sin F ^ 2 * Real.sin L ^ 2
+    let ω := Real.arctan (Real.sqrt (s / c))
+    let R := Real.sqrt (s * c) / ω
+    let H1 := (3 * R - 1) / (2 * c)
+    let H2 := (3 * R + 1) / (2 * s)
+    let d := 2 * ω * el.a * (1 + el.f * (H1 * Real.sin F ^ 2 * Real.cos G ^ 2 - H2 * Real.cos F ^ 2 * Real.sin G ^ 2))
+    (s = 0 → distance el lon1 lat1 lon2 lat2 = .ok (0, 0)) ∧
+    (s ≠ 0 → c = 0 → distance el lon1 lat1 lon2 lat2 = .error .zeroDivisionError) ∧
+    (0 < s → 0 < c → distance el lon1 lat1 lon2 lat2 = .ok (d, pround0 (d * el.f * el.f))) := by
+  intro F G L s c ω R H1 H2 d
+  rw [distance_eq_andoyer]
+  refine ⟨fun h => andoyer_zero _ _ h, fun hs hc => andoyer_antipodal _ _ hs hc, fun hs hc => ?_⟩
+  rw [andoyer_ok el.a el.f hs hc]
+
+/-- "stays within 0.6 % of the great-circle distance" — PARTIAL.  Proved, for every valid ellipsoid and every pair of
+    points that is neither coincident nor antipodal: the result lies between `(1 − 2.5 f)` and `(1 + f)` times the
+    great-circle distance `2 ω a` on the sphere of radius `a` (`ω = asin sqrt(s)`, haversine), because Andoyer's
+    correction term lies in `[-5/2, 1]` (`R = sin 2ω / 2ω ∈ (0, 1]`, `sin²F cos²G ≤ c`, `cos²F sin²G ≤ s`).  For the
+    built-in ellipsoids this is 0.84 % / 0.34 %.
+    NOT proved (evaluated on the implementation by the harness): the statement's 0.6 %, which holds only against
+    the sphere of MEAN radius (2a+b)/3 and needs the joint range of the two terms, not the separate ranges used here. -/
+theorem distance_near_great_circle_partial {el : Ell} (h : Valid el) (lon1 lat1 lon2 lat2 : ℝ) :
+    let F := (pradians lat1 + pradians lat2) / 2
+    let G := (pradians lat1 - pradians lat2) / 2
+    let L := (pradians lon1 - pradians lon2) / 2
+    let s := Real.sin G ^ 2 * Real.cos L ^ 2 + Real.cos F ^ 2 * Real.sin L ^ 2
+    let c := Real.cos G ^ 2 * Real.cos L ^ 2 + Real.sin F ^ 2 * Real.sin L ^ 2
+    0 < s → 0 < c →
+    ∃ d err, distance el lon1 lat1 lon2 lat2 = .ok (d, err) ∧
+      (1 - 5 / 2 * el.f) * (2 * Real.arcsin (Real.sqrt s) * el.a) ≤ d ∧
+      d ≤ (1 + el.f) * (2 * Real.arcsin (Real.sqrt s) * el.a) ∧ 0 < Real.arcsin (Real.sqrt s) := by
+  intro F G L s c hs hc
+  have hsc : s + c = 1 := s_add_c F G L
+  obtain ⟨hR0, hR1⟩ := R_range hs hc hsc
+  obtain ⟨hP, hQ⟩ := PQ_le F G L
+  have hcorr := correction_range (P := Real.sin F ^ 2 * Real.cos G ^ 2) (Q := Real.cos F ^ 2 * Real.sin G ^ 2)
+    hs hc (by positivity) hP (by positivity) hQ hR0 hR1
+  have hom : Real.arctan (Real.sqrt (s / c)) = Real.arcsin (Real.sqrt s) := by
+    have hc' : c = 1 - s := by linarith
+    rw [hc']; exact arctan_sqrt_ratio hs.le (by linarith)
+  have hpos : 0 < Real.arcsin (Real.sqrt s) := Real.arcsin_pos.mpr (Real.sqrt_pos.mpr hs)
+  obtain ⟨_, _, hform⟩ := distance_is_andoyer el lon1 lat1 lon2 lat2
+  refine ⟨_, _, hform hs hc, ?_, ?_, hpos⟩
+  · rw [hom] at hcorr ⊢
+    have hA : 0 < 2 * Real.arcsin (Real.sqrt s) * el.a := by have := h.a_pos; positivity
+    have hf := h.f_nonneg
+    obtain ⟨lo, _⟩ := hcorr
+    have e : (3 * (Real.sqrt (s * c) / Real.arcsin (Real.sqrt s)) - 1) / (2 * c) * Real.sin F ^ 2 * Real.cos G ^ 2
+        - (3 * (Real.sqrt (s * c) / Real.arcsin (Real.sqrt s)) + 1) / (2 * s) * Real.cos F ^ 2 * Real.sin G ^ 2
+        = (3 * (Real.sqrt (s * c) / Real.arcsin (Real.sqrt s)) - 1) / (2 * c) * (Real.sin F ^ 2 * Real.cos G ^ 2)
+        - (3 * (Real.sqrt (s * c) / Real.arcsin (Real.sqrt s)) + 1) / (2 * s) * (Real.cos F ^ 2 * Real.sin G ^ 2) := by ring
+    rw [e]
+    nlinarith [mul_nonneg hf hA.le]
+  · rw [hom] at hcorr ⊢
+    have hA : 0 < 2 * Real.arcsin (Real.sqrt s) * el.a := by have := h.a_pos; positivity
+    have hf := h.f_nonneg
+    obtain ⟨_, hi⟩ := hcorr
+    have e : (3 * (Real.sqrt (s * c) / Real.arcsin (Real.sqrt s)) - 1) / (2 * c) * Real.sin F ^ 2 * Real.cos G ^ 2
+        - (3 * (Real.sqrt (s * c) / Real.arcsin (Real.sqrt s)) + 1) / (2 * s) * Real.cos F ^ 2 * Real.sin G ^ 2
+        = (3 * (Real.sqrt (s * c) / Real.arcsin (Real.sqrt s)) - 1) / (2 * c) * (Real.sin F ^ 2 * Real.cos G ^ 2)
+        - (3 * (Real.sqrt (s * c) / Real.arcsin (Real.sqrt s)) + 1) / (2 * s) * (Real.cos F ^ 2 * Real.sin G ^ 2) := by ring
+    rw [e]
+    nlinarith [mul_nonneg hf hA.le]
+
+/-- On a sphere (`f = 0`) the surface distance IS the great-circle (haversine) distance `2 a asin sqrt(s)`. -/
+theorem distance_sphere_is_great_circle {el : Ell} (h : Valid el) (hf : el.f = 0) (lon1 lat1 lon2 lat2 : ℝ) :
+    let F := (pradians lat1 + pradians lat2) / 2
+    let G := (pradians lat1 - pradians lat2) / 2
+    let L := (pradians lon1 - pradians lon2) / 2
+    let s := Real.sin G ^ 2 * Real.cos L ^ 2 + Real.cos F ^ 2 * Real.sin L ^ 2
+    let c := Real.cos G ^ 2 * Real.cos L ^ 2 + Real.sin F ^ 2 * Real.sin L ^ 2
+    0 < s → 0 < c →
+    ∃ d err, distance el lon1 lat1 lon2 lat2 = .ok (d, err) ∧ d = 2 * Real.arcsin (Real.sqrt s) * el.a := by
+  intro F G L s c hs hc
+  obtain ⟨d, err, hd, lo, hi, _⟩ := distance_near_great_circle_partial h lon1 lat1 lon2 lat2 hs hc
+  refine ⟨d, err, hd, ?_⟩
+  rw [hf] at lo hi
+  linarith
+
+/-- The hypotheses `0 < s`, `0 < c` are satisfiable: two points 90° apart on the equator (`s = c = 1/2`). -/
+example : 0 < Real.sin ((pradians 0 - pradians 0) / 2) ^ 2 * Real.cos ((pradians 0 - pradians 90) / 2) ^ 2
+      + Real.cos ((pradians 0 + pradians 0) / 2) ^ 2 * Real.sin ((pradians 0 - pradians 90) / 2) ^ 2 := by
+  have h : (pradians 0 - pradians 90) / 2 = -(π / 4) := by unfold pradians; ring
+  have h0 : (pradians 0 + pradians 0) / 2 = 0 := by unfold pradians; ring
+  rw [h, h0, Real.sin_neg, Real.sin_pi_div_four, Real.cos_zero]
+  have : (0:ℝ) < (-(Real.sqrt 2 / 2)) ^ 2 := by
+    have h2 : (0:ℝ) < Real.sqrt 2 := Real.sqrt_pos.mpr (by norm_num)
+    nlinarith
+  nlinarith [sq_nonneg (Real.sin ((pradians 0 - pradians 0) / 2)), sq_nonneg (Real.cos (-(π / 4)))]
+
 /-- Antipodal points: the property promises nothing beyond symmetry.  In exact real arithmetic the model divides by
     zero (`c = 0`): `distance(λ, φ, λ + 180°, −φ)` is a `ZeroDivisionError`.  (In binary64 `cos(π/2) ≠ 0`, so the
     implementation returns a finite value there; see the harness class `distance/antipodal`.) -/
